@@ -28,6 +28,9 @@ SPECS = {
     "spec_C03_selection": "(spec_C03_selection_code c wm h)",
     "spec_C18_registered": "(if spec_C18_registered c wm h then 0%Z else 2%Z)",
     "spec_C18_introspection": "(if spec_C18_introspection h then 0%Z else 2%Z)",
+    "spec_C18_invlists": "(if spec_C18_invlists c wm h then 0%Z else 2%Z)",
+    "spec_C14_kinds": "(if spec_C14_kinds c wm h then 0%Z else 2%Z)",
+    "spec_C16_order": "(if spec_C16_order c wm (snd (last h (None, empty_view))) then 0%Z else 2%Z)",
     # the hypothesis of the frame theorem for class statements, on the model's final world
     "own_lists_everywhere": "(if own_lists_everywhere wm then 0%Z else 2%Z)",
 }
@@ -168,4 +171,4 @@ def strip(o):
 
 def default_gen(rng, n):
     g = G.GenElab(rng)
-    return [g.history() for _ in range(n)]
+    return [g.directed_history() if i % 5 == 0 else g.history() for i in range(n)]
